@@ -32,10 +32,6 @@ Definition corr_auc (yt scores : list float) (idx : list N) (sorted : list float
 (* panicking inputs (non-binary label): no index vector *)
 Definition corr_auc_plain (yt scores : list float) (e : option float) : bool := ofeq (auc FOps yt scores) e.
 
-(* rank vector alone, on sorted scores *)
-Definition corr_ranks (sorted : list float) (e : list float) : bool :=
-  option_eqb flist_eq (ranks FOps (length sorted) 0 sorted) (Some e).
-
 Definition nmat_eqb := list_eqb nlist_eqb.
 Definition corr_unique (l : list Z) (eu : list Z) (ei : list N) : bool :=
   let '(u, i) := unique_with_indices l in zlist_eqb u eu && nlist_eqb (map N.of_nat i) ei.
